@@ -955,7 +955,10 @@ func genEnv(r *gen.Rand) envInput {
 			c.Global = "" // an alias declared above several tasks is a conflict; keep it rare
 		}
 		if c.Target != "" && r.Chance(3, 4) {
-			c.Target = "" // inbound channels with a target of their own (findings C13-a/b): a minority
+			c.Target = "" // inbound channels with a target of their own: a minority
+		}
+		if clean && c.Target != "" && !strings.HasPrefix(c.Target, "tcp://") && !strings.HasPrefix(c.Target, "ipc://") {
+			c.Target = "" // an invalid target fails the configuration
 		}
 		if c.Global != "" && clean {
 			aliasSeq++
@@ -1017,6 +1020,10 @@ func genEnv(r *gen.Rand) envInput {
 		seen := map[string]bool{}
 		for _, blk := range append(append([][]inJ(nil), f.Binds...), f.T.CBind) {
 			for _, c := range blk {
+				if clean && c.Target != "" {
+					seen[c.Name] = true
+					continue // not advertised: naming it fails the configuration
+				}
 				keys = append(keys, f.path()+":"+c.Name)
 				if c.Global != "" && (!clean || !seen[c.Name]) {
 					aliases = append(aliases, "::"+c.Global) // clean: only aliases of declarations that apply
@@ -1096,7 +1103,7 @@ func genEnv(r *gen.Rand) envInput {
 }
 
 // fixed workflows that run first: one per clause of the property and the witnesses of the
-// refuted statements
+// three repaired findings (regression cases)
 func corpus() []envInput {
 	t := func(name, mode, host string, bind []inJ, conn []outJ, cb []inJ, cc []outJ) roleJ {
 		return roleJ{Name: name, Bind: bind, Connect: conn, Task: &taskJ{Mode: mode, Host: host, CBind: cb, CConn: cc}}
@@ -1105,18 +1112,25 @@ func corpus() []envInput {
 		return envInput{Label: label, Root: roleJ{Name: "w", Roles: roles}}
 	}
 	return []envInput{
-		// C13-a: inbound with an explicit target; the peer is sent to the allocated port
+		// former finding C13-a (repaired): an inbound channel with an explicit target is not
+		// advertised; the peer that names it is refused
 		w("explicit-inbound-target",
 			t("b", "direct", "h1", []inJ{{Name: "in0", Target: "tcp://*:5555"}}, nil, nil, nil),
 			t("c", "fairmq", "h2", nil, []outJ{{Name: "out0", Target: "w.b:in0"}}, nil, nil)),
-		// C13-b: inbound with an invalid target: not configured, still advertised
+		// former finding C13-b (repaired): an inbound channel with an invalid target fails the
+		// configuration
 		w("invalid-inbound-target",
 			t("b", "direct", "h1", []inJ{{Name: "in0", Target: "nonsense"}}, nil, nil, nil),
 			t("c", "fairmq", "h2", nil, []outJ{{Name: "out0", Target: "w.b:in0"}}, nil, nil)),
-		// C13-c: two channels of one task claim one alias
+		// former finding C13-c (repaired): two channels of one task claim one alias: refused
 		w("alias-twice-in-one-task",
 			t("b", "direct", "h1", []inJ{{Name: "in0", Global: "ga"}, {Name: "in1", Global: "ga", Addr: "ipc"}}, nil, nil, nil),
 			t("c", "fairmq", "h2", nil, []outJ{{Name: "out0", Target: "::ga"}}, nil, nil)),
+		// static bind address on both sides: accepted, the binder is told its target, nothing
+		// is allocated for the channel
+		w("static-both-sides",
+			t("b", "direct", "h1", []inJ{{Name: "in0", Target: "tcp://*:5555", Global: "ga"}, {Name: "in1"}}, nil, nil, nil),
+			t("c", "fairmq", "h2", nil, []outJ{{Name: "out0", Target: "tcp://h1:5555"}, {Name: "out1", Target: "w.b:in1"}}, nil, nil)),
 		// plain: path target across hosts, alias target, ipc, template-level bind overridden
 		w("plain",
 			t("b", "direct", "h1", []inJ{{Name: "in0", Tr: "zeromq"}, {Name: "ctl", Addr: "ipc", Tr: "shmem", Global: "ga"}}, nil,
